@@ -13,7 +13,10 @@ ASSUMPTIONS = ["numbers are compared as decimals (7 = 7.0)", "lstat size/nlink a
 def mech(tier, seed):
     # the per-row value cache: its key (ExprKey!ExprText, the model of `impl Display for Expr`) is injective on the parsed trees of
     # every arithmetic expression of the generator's families (thorough tier: the run takes about half a minute)
-    return [] if tier == "quick" else [dict(module="MC_ExprMemo", cfg="MC_ExprMemo", workers=8, actions=[], coverage=False)]
+    # Mech => Prop for the value computation: Lexer + Parser + ExprEval (get_column_expr_value with its cache) give Arith!AEval's
+    # value for every expression of the families on every entry of W15, alone and next to other columns over a shared cache
+    evalmech = dict(module="MC_ExprEvalMech", cfg="MC_ExprEvalMech", workers=8, actions=[], coverage=False)
+    return [evalmech] if tier == "quick" else [evalmech, dict(module="MC_ExprMemo", cfg="MC_ExprMemo", workers=8, actions=[], coverage=False)]
 
 
 def _exprkey_conformance(ctx, tier, seed):
@@ -57,8 +60,43 @@ def _exprkey_conformance(ctx, tier, seed):
             "rejected": len(bad), "drift": drift, "wall_s": round(time.time() - t0, 1)}
 
 
+def _expreval_conformance(ctx, tier, seed):
+    """Spec -> implementation replay for Parser!ParseFields + ExprEval: the expression columns the binary prints are the values the
+    mechanism models compute from the characters of the query (left to right over one per-row cache)."""
+    import json
+    import random
+    import time
+    from driver import lib, check
+    t0 = time.time()
+    r = lib.run_tlc("MC_C15", None, workers=4)
+    lib.tlc_ok(r, "MC_C15")
+    scs = [x for x in r.replays if x.get("kind") in ("one", "pairop", "pairbr", "list")]
+    random.Random(seed + 6).shuffle(scs)
+    if tier == "quick":
+        scs = [x for x in scs if x["kind"] == "list"] + [x for x in scs if x["kind"] != "list"][:1500]
+
+    def ex(item):
+        i, scn = item
+        rec = check.default_execute(dict(scn, id=i + 1), ctx)
+        rec["queryc"] = list(scn["runs"][0]["argv"][0])
+        return rec
+    obs = lib.pmap(ex, list(enumerate(scs)), workers=12)
+
+    class P:
+        ID = "C15"
+        JUDGE = "Judge_ExprEval"
+    verdicts, jstates = check.judge(P, obs, ctx, shards=8)
+    bad = [v for v in verdicts if not v["ok"]]
+    byid = {o["id"]: o for o in obs}
+    drift = ["%s argv=%s" % (v["why"], json.dumps(byid[v["id"]]["runs"][0]["argv"])[:200]) for v in bad[:8]]
+    if not any(v.get("nontrivial") for v in verdicts):
+        drift.append("vacuous: no scenario was parsed and evaluated by the models")
+    return {"name": "ExprEval", "kind": "replay", "module": "ExprEval", "states": jstates, "validated": len(verdicts) - len(bad),
+            "rejected": len(bad), "drift": drift, "wall_s": round(time.time() - t0, 1)}
+
+
 def conformance(tier, seed):
-    return [dict(name="ExprKey", run=_exprkey_conformance)]
+    return [dict(name="ExprKey", run=_exprkey_conformance), dict(name="ExprEval", run=_expreval_conformance)]
 
 
 def generators(tier, seed):
